@@ -3,6 +3,7 @@ import AkVerif.Lemmas.HttpConn
 import AkVerif.Lemmas.HttpConnHeap
 import AkVerif.Lemmas.HttpConnFrame
 import AkVerif.Lemmas.HttpConnB64
+import AkVerif.Lemmas.HttpConnStack
 /-!
 # C17 — layered HTTP connections compose adapters without side effects
 
@@ -646,28 +647,94 @@ theorem get_conn_first (H : Heap) (k : Nat) (cl : Caller) (cs : List Str) (comp 
       rw [hcal]; simp [hlt]
     simp [getConn, this, hc, hp, lookup_append_new _ _ _ hn]
 
-/-- **Which component a wrapper uses.** `k.m(…)` ends in the innermost wrapper that `resolveWrapper`
-finds (name `m'`, body in class `b`), and `get_conn()` inside it takes the components from the table
-`_MCALLERS_METAS` of `type(k)` for `m'`: the request is `doCall` with those components. -/
+/-- **Which component a wrapper call uses.** `k.m(…)` called (and its result driven) by plain code makes
+its request with Python's stack `S` when `get_conn()` runs (`callTop`: ordinary / generator / coroutine
+bodies, bodies that call other wrappers and hand the result on or drive it themselves, helper functions);
+`get_conn()` takes the components from the entry of `type(k)._MCALLERS_METAS` for the first frame of `S`
+named like a wrapper: the request is `doCall` with those components. -/
 theorem call_component (H : Heap) (k : Nat) (m m' : Str) (args : Args) (cl : Caller) (cd : ClassDef) (b : Nat)
-    (comps : Comps) (hk : H.callers[k]? = some cl) (hc : H.classes[cl.cls]? = some cd)
-    (hb : resolveWrapper H.classes cd.mro 16 m = .ok (m', b)) (hm : lookup cd.metas m' = some comps) :
+    (S : List Str) (comps : Comps) (hk : H.callers[k]? = some cl) (hc : H.classes[cl.cls]? = some cd)
+    (hb : callTop H.classes cd.mro m = .ok (.made S m' b)) (hm : frameMeta cd.metas S = some comps) :
     step H (.call k m args) = doCall H k comps { args with path := args.path ++ bodySuffix b } := by
   simp [step, hk, hc, hb, hm]
 
-/-- **The executing wrapper is the innermost one.** A wrapper whose body makes the request itself is
-the one whose components count (and whose class marks the path); a wrapper whose body only calls
-`self.<inner>(…)` counts for nothing: the call resolves exactly as a call of `inner` — whatever the
-components of the outer wrapper are, wherever in the class (or in which class of the hierarchy)
-the two are defined. -/
-theorem nested_call_innermost (cs : List ClassDef) (mro : List Nat) (fuel : Nat) (m : Str) (b : Nat) (bd : ClassDef)
-    (hb : bodyClass cs m mro = some b) (hbd : cs[b]? = some bd) :
-    (lookup bd.delegates m = none → resolveWrapper cs mro (fuel + 1) m = .ok (m, b)) ∧
-    (∀ inner, lookup bd.delegates m = some inner →
-        resolveWrapper cs mro (fuel + 1) m = resolveWrapper cs mro fuel inner) := by
-  constructor
-  · intro h; simp [resolveWrapper, hb, hbd, h]
-  · intro inner h; simp [resolveWrapper, hb, hbd, h]
+/-- **The stack walk stops at the innermost wrapper frame - whatever lies outside it.** If the frames
+above the frame of wrapper `m` (`get_conn`, helpers) are not named like wrappers, the components are those
+of `m`, for every continuation `rest` of the stack: the frames of the code that drives a generator /
+coroutine wrapper (wrappers of other components with their decorator frames, plain code, nothing at all)
+have no say. -/
+theorem frame_meta_innermost (metas : List (Str × Comps)) (pre : List Str) (m : Str) (rest : List Str) (c : Comps)
+    (hpre : ∀ f ∈ pre, lookup metas f = none) (hm : lookup metas m = some c) :
+    frameMeta metas (pre ++ m :: rest) = some c ∧
+    (∀ S, (∀ f ∈ S, lookup metas f = none) → frameMeta metas S = none) :=
+  ⟨frameMeta_skip metas pre m rest c hpre hm, fun S h => frameMeta_none metas S h⟩
+
+/-- **A wrapper's request goes to the wrapper's own component, whoever runs its body.** Whenever the
+body of a wrapper `m` that makes its request itself (class `b` selected by the MRO) runs - on top of *any*
+frames `ctx` (inside its decorator, or later, driven from inside a wrapper of another component or from plain
+code), with any fuel - the request it makes is attributed to `m` and class `b`, and `get_conn()` finds the
+entry of `m`, provided `get_conn` and the helper the body goes through are not themselves names of wrappers. -/
+theorem deferred_body_own_component (cs : List ClassDef) (mro : List Nat) (metas : List (Str × Comps))
+    (fuel : Nat) (m : Str) (ctx : List Str) (drive : Bool) (b : Nat) (bd : ClassDef) (c : Comps)
+    (hb : bodyClass cs m mro = some b) (hbd : cs[b]? = some bd) (hd : lookup bd.bodies.delegates m = none)
+    (hg : lookup metas getConnFrame = none) (hh : ∀ h, lookup bd.bodies.reach m = some h → lookup metas h = none)
+    (hm : lookup metas m = some c) :
+    ∃ S, runBody cs mro (fuel + 1) m ctx drive = .ok (.made S m b) ∧ frameMeta metas S = some c := by
+  cases hr : lookup bd.bodies.reach m with
+  | none =>
+    refine ⟨getConnFrame :: m :: ctx, by simp [runBody, hb, hbd, hd, hr], ?_⟩
+    simp [frameMeta, hg, hm]
+  | some h =>
+    refine ⟨getConnFrame :: h :: m :: ctx, by simp [runBody, hb, hbd, hd, hr], ?_⟩
+    simp [frameMeta, hg, hh h hr, hm]
+
+/-- **Every wrapper call ends in the component of the wrapper whose body makes the request.** For every
+class table and every way the bodies are written (ordinary, generator, coroutine; handing a pending object
+on or driving it; helpers): if `k.m(…)` makes a request at all, the wrapper `m'` that made it is a wrapper
+whose body does not delegate, `b` is the class the MRO selects for it, and - helper frames not being named
+like wrappers - the request is `doCall` with the entry of `m'` in the table. The result of the call is never
+an undriven object. -/
+theorem call_component_innermost (H : Heap) (k : Nat) (m m' : Str) (args : Args) (cl : Caller) (cd : ClassDef)
+    (b : Nat) (S : List Str) (comps : Comps) (hk : H.callers[k]? = some cl) (hc : H.classes[cl.cls]? = some cd)
+    (hb : callTop H.classes cd.mro m = .ok (.made S m' b))
+    (hg : lookup cd.metas getConnFrame = none)
+    (hh : ∀ bd h, H.classes[b]? = some bd → lookup bd.bodies.reach m' = some h → lookup cd.metas h = none)
+    (hm : lookup cd.metas m' = some comps) :
+    step H (.call k m args) = doCall H k comps { args with path := args.path ++ bodySuffix b } ∧
+    bodyClass H.classes m' cd.mro = some b ∧
+    (∃ bd, H.classes[b]? = some bd ∧ lookup bd.bodies.delegates m' = none) ∧
+    (∀ m'', callTop H.classes cd.mro m ≠ .ok (.pending m'')) := by
+  have hs := callTop_made _ _ _ _ _ _ hb
+  refine ⟨call_component H k m m' args cl cd b S comps hk hc hb
+      (frameMeta_stackOf _ _ _ _ _ _ _ hs hg hh hm), hs.1, ?_, fun m'' => callTop_not_pending _ _ _ _⟩
+  obtain ⟨_, bd, _, hbd, hd, _⟩ := hs
+  exact ⟨bd, hbd, hd⟩
+
+/-- **Calls between wrappers.** A wrapper whose body makes the request itself is the one whose frame
+`get_conn()` sees first (its own name, its class marks the path). A wrapper whose body only evaluates
+`self.<inner>(…)` counts for nothing: its body is a call of `inner` from a frame on top of its own
+(`callWith`) - an ordinary `inner` runs at once inside its decorator; a generator / coroutine `inner` runs
+nothing at the call: the object is handed on (`pending`) or, if the body drives it, its body runs on top of
+`_drive :: m :: ctx` - whatever the components of the outer wrapper are, wherever in the hierarchy the two
+are defined. -/
+theorem nested_call_innermost (cs : List ClassDef) (mro : List Nat) (fuel : Nat) (m : Str) (ctx : List Str)
+    (b : Nat) (bd : ClassDef) (hb : bodyClass cs m mro = some b) (hbd : cs[b]? = some bd) :
+    (lookup bd.bodies.delegates m = none → ∃ pre, runBody cs mro (fuel + 1) m ctx false = .ok (.made (pre ++ m :: ctx) m b)) ∧
+    (∀ inner drives, lookup bd.bodies.delegates m = some (inner, drives) →
+        runBody cs mro (fuel + 1) m ctx false = callWith (runBody cs mro fuel) cs mro inner (m :: ctx) drives) ∧
+    (∀ body inner caller, isDeferred cs mro inner = .ok true →
+        callWith body cs mro inner caller false = .ok (.pending inner) ∧
+        callWith body cs mro inner caller true = body inner (driveFrame :: caller) true) := by
+  refine ⟨?_, ?_, ?_⟩
+  · intro h
+    cases hr : lookup bd.bodies.reach m with
+    | none => exact ⟨[getConnFrame], by simp [runBody, hb, hbd, h, hr]⟩
+    | some hf => exact ⟨[getConnFrame, hf], by simp [runBody, hb, hbd, h, hr]⟩
+  · intro inner drives h
+    simp only [runBody, hb, hbd, h]
+    split <;> simp_all
+  · intro body inner caller h
+    simp [callWith, h]
 
 /-- **The table of a class**, as the metaclass computes it when the class is created: a wrapper of
 the class body wins; otherwise the entry comes from the first direct base (in the order of the
@@ -677,7 +744,7 @@ bases it differs from the MRO exactly when a later base overrides a wrapper that
 inherits (see the example below); component selection for that shape is outside the property and is
 tied to the code by the correspondence runs only. -/
 theorem metas_first_base (H : Heap) (bases mro : List Nat) (pmap : Option UDict) (own : List (Str × Comps))
-    (dlg : List (Str × Str)) (bs : List ClassDef) (hb : bases.mapM (fun b => H.classes[b]?) = some bs) (m : Str) :
+    (dlg : Bodies) (bs : List ClassDef) (hb : bases.mapM (fun b => H.classes[b]?) = some bs) (m : Str) :
     ∃ cd, (step H (.newClass bases mro pmap own dlg)).1.classes = H.classes ++ [cd] ∧
       cd.bases = bases ∧ cd.mro = mro ∧ cd.own = own ∧
       lookup cd.metas m = (match lookupLast own m with
@@ -737,10 +804,10 @@ example : (J.obj (.cons "é".toList (.arr (.cons [] (.num (-7)) (.cons [] (.str 
     = "{\"\\u00e9\": [-7, \"a\\\"\\n\\ud83d\\ude00\"]}".toList := by decide +kernel
 private def diamond (cFirstA : Bool) : List Op :=
   [ .newClass [] [0] (some [("common".toList, "/common".toList), ("front".toList, "/front".toList)])
-      [("ping".toList, some ["common".toList])] [],                               -- 0 Base
-    .newClass [0] [1, 0] none [("ping".toList, some ["front".toList])] [],        -- 1 A(Base) overrides ping
-    .newClass [0] [2, 0] none [] [],                                               -- 2 B(Base)
-    if cFirstA then .newClass [1, 2] [3, 1, 2, 0] none [] [] else .newClass [2, 1] [3, 2, 1, 0] none [] [] ]
+      [("ping".toList, some ["common".toList])] ⟨[], [], []⟩,                               -- 0 Base
+    .newClass [0] [1, 0] none [("ping".toList, some ["front".toList])] ⟨[], [], []⟩,        -- 1 A(Base) overrides ping
+    .newClass [0] [2, 0] none [] ⟨[], [], []⟩,                                               -- 2 B(Base)
+    if cFirstA then .newClass [1, 2] [3, 1, 2, 0] none [] ⟨[], [], []⟩ else .newClass [2, 1] [3, 2, 1, 0] none [] ⟨[], [], []⟩ ]
 /-- `class C(A, B)`: the table agrees with the MRO (A.ping, component front). `class C(B, A)`: the MRO
 still selects A.ping, but the table holds the entry B inherited from Base (component common) — the
 code as it is (an observation, outside the property; the correspondence runs confirm that the real metaclass does
@@ -756,11 +823,39 @@ the request is made by `inner` -/
 example : (match step (run Heap.empty
       [ .newClass [] [0] (some [("front".toList, "/front".toList), ("back".toList, "/back".toList)])
           [("outer".toList, some ["back".toList]), ("inner".toList, some ["front".toList])]
-          [("outer".toList, "inner".toList)],
+          ⟨[("outer".toList, "inner".toList, false)], [], []⟩,
         .newCaller (.addr "http://h".toList true true) 0 ])
       (.call 0 "outer".toList getArgs) with
     | (_, .ok (.sent s)) => some (String.ofList s.url)
     | _ => none) = some "http://h/front/p~0" := by decide +kernel
+/-- generator / coroutine wrappers: `iter_users` (component users) is a generator; `report` (stats) drives it
+inside its own body, `lazy` (stats) hands the object on to plain code, `co` (users) is a coroutine function
+reaching get_conn() through the shared helper, `pages` (users) delegates to the helper generator: every request
+goes to the users component -/
+private def genOps : List Op :=
+  [ .newClass [] [0] (some [("users".toList, "/users-srv".toList), ("stats".toList, "/stats-srv".toList)])
+      [("iter_users".toList, some ["users".toList]), ("report".toList, some ["stats".toList]),
+       ("lazy".toList, some ["stats".toList]), ("co".toList, some ["users".toList]),
+       ("pages".toList, some ["users".toList]), ("totals".toList, some ["stats".toList])]
+      ⟨[("report".toList, "iter_users".toList, true), ("lazy".toList, "iter_users".toList, false)],
+       ["iter_users".toList, "co".toList, "pages".toList],
+       [("co".toList, "_shared_conn".toList), ("pages".toList, "_gen_conn".toList)]⟩,
+    .newCaller (.addr "http://h".toList true true) 0 ]
+private def genUrl (m : String) : Option String :=
+  match step (run Heap.empty genOps) (.call 0 m.toList getArgs) with
+  | (_, .ok (.sent s)) => some (String.ofList s.url)
+  | _ => none
+example : ["iter_users", "report", "lazy", "co", "pages", "totals"].map genUrl =
+    [some "http://h/users-srv/p~0", some "http://h/users-srv/p~0", some "http://h/users-srv/p~0",
+     some "http://h/users-srv/p~0", some "http://h/users-srv/p~0", some "http://h/stats-srv/p~0"] := by decide +kernel
+/-- the stacks: the generator body driven inside `report` has the frames of `report` and its decorator below
+it, but no decorator frame of its own; handed on by `lazy`, only the driving plain code is below it -/
+example : (callTop (run Heap.empty genOps).classes [0] "report".toList,
+           callTop (run Heap.empty genOps).classes [0] "lazy".toList,
+           callTop (run Heap.empty genOps).classes [0] "co".toList) =
+    (.ok (.made (["get_conn", "iter_users", "_drive", "report", "decorated_method_body"].map String.toList) "iter_users".toList 0),
+     .ok (.made (["get_conn", "iter_users", "_drive"].map String.toList) "iter_users".toList 0),
+     .ok (.made (["get_conn", "_shared_conn", "co", "_drive"].map String.toList) "co".toList 0)) := by decide +kernel
 /-- repeated keys of a pair sequence all reach the query, non-str values through `str()` -/
 example : (toUDict [("ids".toList, .int 1), ("x".toList, .str "y".toList), ("ids".toList, .int 2),
     ("f".toList, .bool false), ("n".toList, .pyNone)]).map (fun u => String.ofList (urlencode u))
